@@ -153,6 +153,32 @@ pub trait Property: Sync + Send + 'static {
     fn claims_termination(&self) -> bool {
         false
     }
+    /// coverage-guided stage of the thorough tier (libFuzzer through cargo-fuzz)
+    fn fuzz(&self) -> Option<FuzzSpec> {
+        None
+    }
+    /// structured decoding of libFuzzer's bytes into a case (total: None = input ignored)
+    fn case_from_bytes(&self, _data: &[u8]) -> Option<Self::Case> {
+        None
+    }
+    /// inverse of `case_from_bytes` where one exists: generated cases seed the fuzzer's corpus
+    fn case_to_bytes(&self, _case: &Self::Case) -> Option<Vec<u8>> {
+        None
+    }
+}
+
+/// Parameters of the coverage-guided stage
+#[derive(Clone, Debug)]
+pub struct FuzzSpec {
+    /// binary target of the cargo-fuzz crate `<root>/fuzz`
+    pub target: &'static str,
+    /// parallel libFuzzer processes, each with its own corpus directory and seed
+    pub jobs: usize,
+    /// executions per process (fixed work, `-runs=N`)
+    pub runs: u64,
+    pub max_len: usize,
+    /// generated cases written into every fresh corpus directory as seeds
+    pub seeds: usize,
 }
 
 // ---------------------------------------------------------------------------------------
@@ -569,6 +595,184 @@ fn shorten(v: serde_json::Value) -> serde_json::Value {
     }
 }
 
+
+// ---------------------------------------------------------------------------------------
+// coverage-guided stage (libFuzzer)
+
+/// Entry of the cargo-fuzz targets: decode, run the property's oracle in-process, abort on a
+/// failure whose signature is not a listed known finding.
+pub fn fuzz_one<P: Property>(prop: &P, data: &[u8]) {
+    static INIT: std::sync::Once = std::sync::Once::new();
+    static KNOWN: std::sync::OnceLock<HashSet<String>> = std::sync::OnceLock::new();
+    // libfuzzer-sys installs a panic hook that aborts; ours captures panics raised inside the
+    // oracle (they become `Fail`s) and falls through to the aborting one otherwise
+    INIT.call_once(install_panic_hook);
+    let known = KNOWN.get_or_init(|| load_known_findings(prop.id()).into_iter().map(|k| k.sig).collect());
+    let Some(case) = prop.case_from_bytes(data) else { return };
+    if let Err(f) = guard(|| prop.check(&case)) {
+        if known.contains(&f.sig) || f.sig.starts_with("inconclusive/") {
+            return;
+        }
+        eprintln!("VERIF-FAIL property={} sig={} :: {}", prop.id(), f.sig, f.msg);
+        std::process::abort();
+    }
+}
+
+pub enum FuzzOutcome {
+    /// the campaign ran: summary for the evidence file
+    Ran(serde_json::Value),
+    /// nightly toolchain / cargo-fuzz / build not usable: reason for the evidence file
+    Unavailable(String),
+    Violation(Vec<u8>),
+    Inconclusive(String),
+}
+
+fn fuzz_stage<P: Property>(prop: &P, spec: &FuzzSpec, seed: u64) -> FuzzOutcome {
+    let root = verif_root();
+    let fuzz_dir = root.join("fuzz");
+    let target_dir = root.join("target").join("fuzz");
+    let started = Instant::now();
+    if std::env::var("VERIF_FUZZ").as_deref() == Ok("0") {
+        return FuzzOutcome::Unavailable("disabled by VERIF_FUZZ=0".into());
+    }
+    // the fuzz crate's lock file starts as a copy of the harness's (offline resolution)
+    let lock = fuzz_dir.join("Cargo.lock");
+    if !lock.exists() {
+        let _ = std::fs::copy(root.join("harness").join("Cargo.lock"), &lock);
+    }
+    let build = Command::new("cargo")
+        .args(["+nightly", "fuzz", "build", "-s", "none", "--fuzz-dir"])
+        .arg(&fuzz_dir)
+        .arg("--target-dir")
+        .arg(&target_dir)
+        .arg(spec.target)
+        .env("CARGO_NET_OFFLINE", "true")
+        .env_remove("CARGO_TARGET_DIR")
+        .stdin(Stdio::null())
+        .output();
+    let build = match build {
+        Ok(b) => b,
+        Err(e) => return FuzzOutcome::Unavailable(format!("cargo +nightly fuzz build could not be started: {e}")),
+    };
+    if !build.status.success() {
+        let err = String::from_utf8_lossy(&build.stderr);
+        let tail: String = err.lines().rev().take(12).collect::<Vec<_>>().into_iter().rev().collect::<Vec<_>>().join(" | ");
+        return FuzzOutcome::Unavailable(format!("cargo +nightly fuzz build failed: {tail}"));
+    }
+    let bin = target_dir.join("x86_64-unknown-linux-gnu").join("release").join(spec.target);
+    if !bin.exists() {
+        return FuzzOutcome::Unavailable(format!("fuzz binary not found at {}", bin.display()));
+    }
+    let build_s = started.elapsed().as_secs_f64();
+    let runs: u64 = std::env::var("VERIF_FUZZ_RUNS").ok().and_then(|v| v.parse().ok()).unwrap_or(spec.runs);
+    // seeds: generated cases that have a byte form
+    let strategy = prop.strategy(Tier::Quick);
+    let mut runner = det_runner(seed ^ 0xf022);
+    let mut seeds: Vec<Vec<u8>> = Vec::new();
+    let mut tries = 0;
+    while seeds.len() < spec.seeds && tries < spec.seeds * 20 {
+        tries += 1;
+        let case = sample(&strategy, &mut runner);
+        if let Some(b) = prop.case_to_bytes(&case) {
+            if b.len() <= spec.max_len {
+                seeds.push(b);
+            }
+        }
+    }
+    let work = root.join("target").join("fuzz-work").join(prop.id());
+    let _ = std::fs::remove_dir_all(&work);
+    let mut children = Vec::new();
+    for job in 0..spec.jobs {
+        let dir = work.join(format!("job{job}"));
+        let corpus = dir.join("corpus");
+        let arts = dir.join("artifacts");
+        if std::fs::create_dir_all(&corpus).is_err() || std::fs::create_dir_all(&arts).is_err() {
+            return FuzzOutcome::Inconclusive("cannot create the fuzz work directory".into());
+        }
+        for (i, s) in seeds.iter().enumerate() {
+            let _ = std::fs::write(corpus.join(format!("seed{i:04}")), s);
+        }
+        let log = match std::fs::File::create(dir.join("log.txt")) {
+            Ok(f) => f,
+            Err(e) => return FuzzOutcome::Inconclusive(format!("cannot create fuzz log: {e}")),
+        };
+        // libFuzzer: seed 0 means "random"
+        let s = (seed.wrapping_mul(64).wrapping_add(job as u64 + 1)) & 0x7fff_ffff;
+        let child = Command::new(&bin)
+            .arg(&corpus)
+            .arg(format!("-runs={runs}"))
+            .arg(format!("-seed={}", s.max(1)))
+            .arg(format!("-max_len={}", spec.max_len))
+            .arg("-len_control=0")
+            .arg("-timeout=60")
+            .arg("-rss_limit_mb=4096")
+            .arg("-print_final_stats=1")
+            .arg(format!("-artifact_prefix={}/", arts.display()))
+            .env("VERIF_ROOT", &root)
+            .stdin(Stdio::null())
+            .stdout(Stdio::null())
+            .stderr(Stdio::from(log))
+            .spawn();
+        match child {
+            Ok(c) => children.push((job, dir, c)),
+            Err(e) => return FuzzOutcome::Inconclusive(format!("cannot start the fuzz binary: {e}")),
+        }
+    }
+    let mut executed = 0u64;
+    let mut new_units = 0u64;
+    let mut corpus_units = 0u64;
+    let mut failures: Vec<(usize, PathBuf, String)> = Vec::new();
+    for (job, dir, mut c) in children {
+        let status = match c.wait() {
+            Ok(s) => s,
+            Err(e) => return FuzzOutcome::Inconclusive(format!("waiting for fuzz job {job}: {e}")),
+        };
+        let log = std::fs::read_to_string(dir.join("log.txt")).unwrap_or_default();
+        for l in log.lines() {
+            if let Some(v) = l.strip_prefix("stat::number_of_executed_units:") {
+                executed += v.trim().parse::<u64>().unwrap_or(0);
+            }
+            if let Some(v) = l.strip_prefix("stat::new_units_added:") {
+                new_units += v.trim().parse::<u64>().unwrap_or(0);
+            }
+        }
+        corpus_units += std::fs::read_dir(dir.join("corpus")).map(|d| d.count() as u64).unwrap_or(0);
+        if !status.success() {
+            // artifacts: crash-*, timeout-*, oom-*, leak-*
+            let mut arts: Vec<PathBuf> = std::fs::read_dir(dir.join("artifacts"))
+                .map(|d| d.filter_map(|e| e.ok().map(|e| e.path())).collect())
+                .unwrap_or_default();
+            arts.sort();
+            let why = log.lines().filter(|l| l.contains("VERIF-FAIL") || l.contains("ERROR: libFuzzer") || l.contains("panicked at")).take(3).collect::<Vec<_>>().join(" | ");
+            match arts.into_iter().next() {
+                Some(a) => failures.push((job, a, why)),
+                None => return FuzzOutcome::Inconclusive(format!("fuzz job {job} ended with {status} without an artifact: {why}")),
+            }
+        }
+    }
+    if let Some((_, art, _)) = failures.into_iter().next() {
+        return match std::fs::read(&art) {
+            Ok(bytes) => FuzzOutcome::Violation(bytes),
+            Err(e) => FuzzOutcome::Inconclusive(format!("cannot read artifact {}: {e}", art.display())),
+        };
+    }
+    let _ = std::fs::remove_dir_all(&work);
+    FuzzOutcome::Ran(serde_json::json!({
+        "engine": "libFuzzer (cargo +nightly fuzz, sanitizer none, debug assertions and overflow checks on)",
+        "target": spec.target,
+        "jobs": spec.jobs,
+        "runs_per_job": runs,
+        "executions": executed,
+        "max_len": spec.max_len,
+        "seed_inputs_per_job": seeds.len(),
+        "new_corpus_units_found": new_units,
+        "final_corpus_units": corpus_units,
+        "build_s": build_s,
+        "wall_s": started.elapsed().as_secs_f64(),
+        "oracle": "the same Property::check as the generated search, run in-process on the case decoded from the fuzzer's bytes; a failure whose signature is not a listed known finding aborts the fuzz process",
+    }))
+}
+
 pub struct RunResult {
     pub exit: i32,
 }
@@ -915,6 +1119,52 @@ pub fn run<P: Property>(prop: P, tier: Tier, seed: u64) -> RunResult {
         }
     }
 
+    // ---- tier 5 (thorough only): coverage-guided campaign on the same oracle
+    let mut fuzz_report: Option<serde_json::Value> = None;
+    if violations.is_empty() && tier == Tier::Thorough {
+        if let Some(spec) = prop.fuzz() {
+            match fuzz_stage(&*prop, &spec, seed) {
+                FuzzOutcome::Ran(v) => fuzz_report = Some(v),
+                FuzzOutcome::Unavailable(why) => {
+                    eprintln!("note: coverage-guided stage skipped: {why}");
+                    fuzz_report = Some(serde_json::json!({"skipped": why}));
+                }
+                FuzzOutcome::Inconclusive(why) => {
+                    eprintln!("INCONCLUSIVE: coverage-guided stage: {why}");
+                    return RunResult { exit: 2 };
+                }
+                FuzzOutcome::Violation(bytes) => match prop.case_from_bytes(&bytes) {
+                    None => {
+                        eprintln!("INCONCLUSIVE: the fuzzer's artifact does not decode into a case");
+                        return RunResult { exit: 2 };
+                    }
+                    Some(case) => {
+                        // the verdict comes from re-executing the case the usual way
+                        let mut ex = Executor::new(&*prop, prop.isolate());
+                        match ex.exec(&case) {
+                            Ok(_) => {
+                                eprintln!("INCONCLUSIVE: the input that stopped the fuzzer passes when re-executed");
+                                return RunResult { exit: 2 };
+                            }
+                            Err(f) if known_sigs.contains(&f.sig) => {
+                                eprintln!("INCONCLUSIVE: the fuzzer stopped on a listed known finding ({})", f.sig);
+                                return RunResult { exit: 2 };
+                            }
+                            Err(f) if f.sig.starts_with("inconclusive/") => {
+                                eprintln!("INCONCLUSIVE: {}: {}", f.sig, f.msg);
+                                return RunResult { exit: 2 };
+                            }
+                            Err(f) => {
+                                let path = write_replay(id, &case, &f);
+                                violations.push((path, f));
+                            }
+                        }
+                    }
+                },
+            }
+        }
+    }
+
     // ---- evidence
     let stats = Arc::try_unwrap(stats)
         .map(|m| m.into_inner().unwrap())
@@ -945,6 +1195,12 @@ pub fn run<P: Property>(prop: P, tier: Tier, seed: u64) -> RunResult {
         "cases_per_shard": prop.cases(tier),
         "isolated_in_worker_process": prop.isolate(),
     });
+    if let Some(f) = &fuzz_report {
+        coverage["coverage_guided_stage"] = f.clone();
+        if let Some(n) = f.get("executions").and_then(|v| v.as_u64()) {
+            coverage["evaluations"] = serde_json::json!(evaluations + n);
+        }
+    }
     if let Some(note) = &sweep.exhaustive_note {
         coverage["exhaustive"] = serde_json::json!(true);
         coverage["exhaustive_scope"] = serde_json::json!(note);
